@@ -23,7 +23,8 @@ import (
 // and concurrently (one goroutine and one hist.World per job) and requires every job's
 // observations to be byte-identical in all of these runs.  The data-race half of the
 // property is decided by a separate binary built with -race (harness/racejob, see
-// c09race.go).
+// c09race.go).  Stream "spellings" (c09_spell.go) adds job sets over paths that are spellings
+// of one another and re-runs their jobs in fresh processes.
 type c09 struct{}
 
 func init() { Register(c09{}) }
@@ -654,6 +655,19 @@ func (c09) Generate(r *rand.Rand, t string) []*Case {
 	for i := 0; i < n; i++ {
 		out = append(out, c09SharedMapCase(r, t))
 	}
+	// stream spellings (c09_spell.go): a seed of its own; the fresh-process children start now
+	// and run while this process works through the other streams
+	spellSeed := seed ^ 0x5be11
+	if ChildExe != "" {
+		c09FreshProcs = c09StartFresh(tier(t, 3, 6), t, spellSeed)
+	}
+	for _, c := range C09SpellSets(spellSeed, t) {
+		c09SpellMeasure(c)
+		if c09FreshProcs != nil {
+			c.Tags = append(c.Tags, fmt.Sprintf("fresh-process-orders=%d", len(c09FreshProcs.Runs)))
+		}
+		out = append(out, c)
+	}
 	return out
 }
 
@@ -682,6 +696,8 @@ func (c09) Oracle(c *Case, got []hist.Obs) string {
 		return c09SharedOracle(c, got)
 	case "shared-hint-map":
 		return c09SharedMapOracle(c, got)
+	case "spellings":
+		return c09SpellOracle(c, got)
 	}
 	return c09JobsOracle(c, got)
 }
@@ -1076,6 +1092,9 @@ func (c09) Shrink(c *Case) []*Case {
 			}
 			mk(h)
 		}
+	}
+	if c.Stream == "spellings" {
+		return out // whole jobs only: the fresh-process children built exactly these jobs
 	}
 	for i, op := range c.Hist {
 		if strings.HasPrefix(op.Kind, "newfile") || op.Kind == "imports" {
